@@ -3,6 +3,7 @@ import LarkVerif.LRComplete
 import LarkVerif.FirstSets
 import LarkVerif.LALRTable
 import LarkVerif.LRClosedCheck
+import LarkVerif.LR0
 /-! # C02 — LALR(1): conflicts reported, accepted language sound and (conflict-free) exact -/
 namespace Props.C02
 open EarleyProto LRProto
@@ -52,6 +53,18 @@ theorem shift_wins (r : LALRTable.RowIn) (la : Nat) (a : LALRTable.Act) (h : (la
 theorem winner_order_independent {cands : List LALRTable.Cand} (hnd : (cands.map (·.2)).Nodup) {c d : LALRTable.Cand}
     (hc : c ∈ cands ∧ ∀ c' ∈ cands, c'.2 = c.2 ∨ c'.1 < c.1) (hd : d ∈ cands ∧ ∀ c' ∈ cands, c'.2 = d.2 ∨ c'.1 < d.1) : c = d :=
   LALRTable.winner_unique hnd hc hd
+
+/-- **States are LR(0) closures.** The executable closure (a saturation fixpoint mirroring `compute_lr0_states`' BFS over `expand_rule`) holds exactly the
+    items the inductive LR(0) closure of the kernel holds — for every grammar and every kernel. -/
+theorem state_is_closure_of_kernel (G : Grammar) (K : List LR0.It) (x : LR0.It) : x ∈ LR0.closure G K ↔ LR0.Closure G K x := LR0.mem_closure_iff G K x
+
+/-- **lark's own automaton, certified per grammar.** When `LR0.checkLR0` evaluates to `true` on the item sets, kernels and transitions exported from lark's
+    analyzer, every state is the LR(0) closure of its kernel, every transition leads to the state whose kernel is the source's items advanced over the
+    symbol, and every symbol an item expects has a transition. -/
+theorem checked_automaton_is_lr0 (G : Grammar) (A : LR0.Auto) (h : LR0.checkLR0 G A = true) :
+    (∀ q, q < A.items.length → ∀ x, x ∈ A.itemsOf q ↔ LR0.Closure G (A.kernelOf q) x) ∧
+    (∀ p X q, (p, X, q) ∈ A.trans → q < A.items.length ∧ ∀ x, x ∈ A.kernelOf q ↔ ∃ d, (x.1, d) ∈ A.itemsOf p ∧ x.1.rhs[d]? = some X ∧ x.2 = d + 1) ∧
+    (∀ q, q < A.items.length → ∀ r d X, (r, d) ∈ A.itemsOf q → r.rhs[d]? = some X → ∃ q', (q, X, q') ∈ A.trans) := LR0.checkLR0_sound G A h
 
 -- non-vacuity
 example : LALRTable.winner [(2, 7), (1, 8)] = some (2, 7) := by decide
